@@ -573,8 +573,14 @@ func (w *World) Close(h *StoreH) bool {
 }
 
 // CopyTo copies into a fresh file.
-func (w *World) CopyTo(h *StoreH, flushEvery int, ft *memfile.Fault) *StoreH {
+func (w *World) CopyTo(h *StoreH, flushEvery int, ft *memfile.Fault, dstFt ...*memfile.Fault) *StoreH {
 	dst := w.NewFile()
+	w.lastCopyDst = dst
+	var dft *memfile.Fault
+	if len(dstFt) > 0 && dstFt[0] != nil {
+		dft = dstFt[0]
+		dst.Arm(dft) // the fault strikes a call on the DESTINATION file
+	}
 	w.begin(h, ft)
 	var st *gkvlite.Store
 	var err error
@@ -594,6 +600,11 @@ func (w *World) CopyTo(h *StoreH, flushEvery int, ft *memfile.Fault) *StoreH {
 	if h.File != nil && ft != nil {
 		h.File.Arm(nil)
 		ev["fault"] = faultEv(ft)
+	}
+	if dft != nil {
+		dst.Arm(nil)
+		ev["fault"] = faultEv(dft)
+		ev["faultdst"] = true
 	}
 	ev["srcio"] = w.ioOf(h.File, false)
 	ev["io"] = w.ioOf(dst, false)
